@@ -456,7 +456,7 @@ func (c *clientV2) FinishedMessage() {
 }
 
 func (c *clientV2) Empty() {
-	atomic.StoreInt64(&c.InFlightCount, 0)
+	// the channel has taken every discarded message off InFlightCount
 	c.tryUpdateReadyState()
 }
 
